@@ -62,6 +62,12 @@ NEEDS = {
  "C24-rollback-impl-skips-on-autocommit-option": "skip_autocommit_rollback=True, the recorded option says AUTOCOMMIT while the driver connection is transactional (reconnect after invalidation, or refused option change), closed with uncommitted writes",
  "C16-imv-map-from-compiled": "insertmanyvalues batch with a schema-qualified scalar subquery in VALUES + compiled-cache hit under a map that translates that schema differently",
  "C10-filter-yield-per-not-generative": "on one scalars()/mappings() view: a sized fetchmany / partitions first, then view.yield_per(n), then a size-less fetchmany() / partitions()",
+ "C17-tracker-key-parent-only": "lambda_stmt chain of >= 3 links in which two invocations differ at a link two or more levels above the last one (alternative first lambda, optional middle link)",
+ "C28-update-subclass-direct-bases-only": "listener on a base class, then Mid(Base) and Leaf(Mid) defined afterwards and Leaf used before Mid was ever seen by the event system",
+ "C29-overflow-close-no-finally-cancel-2": "overflow connection returned to a full queue through an unshielded await, cancellation landing on the driver-level close (same mechanism as the round-2 change, found independently)",
+ "C44-versioned-update-executemany-batch": "client-side versioning, one flush updating >= 2 rows of the mapper with the same changed columns and different version counters; a later write of rows 2..n",
+ "C52-default-registry-by-ident-2": "default thread scope, a thread ends without remove(), a later thread gets the recycled identifier (same mechanism as the round-2 change, found independently)",
+ "C02-many-paramsets-drop-stmt-params": "compiled cache in use + execution with a LIST of two or more parameter sets + DML embedding a SELECT / scalar subquery / text that had Executable.params() applied",
  "C52-default-registry-by-ident": "default (thread-local) scoped_session; a thread ends without remove(); a later thread gets the recycled thread identifier",
 }
 base = "/verif/seeded"
